@@ -306,6 +306,54 @@ import world as _W
 W_IP_B = _W.IP_B
 
 
+def two_ike_sas_one_connection(ctx, res, seed):
+    """simultaneous initiations leave an endpoint with two IKE_SAs of one connection; while the IKE_AUTH request of one is
+    outstanding the other starts a CHILD_SA rekey: the retransmitted IKE_AUTH request must still be the one that was sent"""
+    with CP.History(seed, trace=False, dpd=2000) as h:
+        h.oracles = list(ORACLES)
+        w = h.w
+        h.op('acquire', 'A', 8765)                     # A -> B  IKE_SA_INIT request (#0)
+        h.op('acquire', 'B', 8765)                     # B -> A  IKE_SA_INIT request (#1)
+        # complete B's initiation (A is responder there), keep A's own exchange half way
+        for _ in range(12):
+            dg = next((d for d in w.net if d.sender == 'B' or (d.sender == 'A' and hdr(d.data) is not None and hdr(d.data).is_response)), None)
+            if dg is None:
+                break
+            h.op('deliver', dg.id)
+        a_init = next((s for s in w.A.sas() if s.is_initiator), None)
+        a_resp = next((s for s in w.A.sas() if not s.is_initiator and s.child_sas), None)
+        replay = {'seed': seed, 'scenario': 'two IKE_SAs of one connection', 'ops': S.ser_ops(h.ops)}
+        res.evaluations += 1
+        res.nontrivial.add(('two-ike-sas', seed))
+        res.count('two-ike-sas')
+        if a_init is None or a_resp is None:
+            res.count('two-ike-sas:not-reached')
+            return
+        # bring A's own exchange to AUTH_REQ_SENT and lose the IKE_AUTH request
+        for _ in range(4):
+            dg = next((d for d in w.net if d.sender == 'A' and int(hdr(d.data).exchange_type) == 34), None)
+            if dg:
+                h.op('deliver', dg.id)
+            dg = next((d for d in w.net if d.sender == 'B' and hdr(d.data).is_response and int(hdr(d.data).exchange_type) == 34), None)
+            if dg:
+                h.op('deliver', dg.id)
+        if int(a_init.state) != 3:
+            res.count('two-ike-sas:not-reached')
+            return
+        first = bytes(a_init.request.to_bytes())
+        w.net.clear()
+        h.op('expire', 'A', a_resp.child_sas[0].inbound_spi, False)      # the other IKE_SA builds a request from the same policy
+        w.net.clear()
+        again = bytes(a_init.request.to_bytes())
+        seen = len(w.sent)
+        h.op('tick', 3)
+        rtx = [d.data for d in w.sent[seen:] if d.sender == 'A' and hdr(d.data) is not None and int(hdr(d.data).exchange_type) == 35]
+        if again != first or any(x != first for x in rtx):
+            res.fail('retransmission-differs:auth-after-other-ike-sa-request',
+                     'the IKE_AUTH request retransmitted after another IKE_SA of the same connection built a CHILD_SA request is not the '
+                     'request that was sent (the SA payload carries the other request\'s SPI)', replay)
+
+
 def run(ctx):
     res = Result()
     res.rule = ('request kinds %s x subsets of delivered transmissions x tick grains (0.25, 1, 3, 7 s); peer crash after every '
@@ -329,6 +377,8 @@ def run(ctx):
     for g in grains:
         lifetimes(ctx, res, ctx.rng.randrange(1 << 30), g)
         busy_peer(ctx, res, ctx.rng.randrange(1 << 30), g)
+    for _ in range(2):
+        two_ike_sas_one_connection(ctx, res, ctx.rng.randrange(1 << 30))
     return res
 
 
